@@ -104,9 +104,33 @@ func classifyFatal(stderr string) string {
 	return "crash"
 }
 
-// fatalFrame extracts the first webrender frame of a fatal stderr dump.
+// fatalFrame extracts the webrender call site of a fatal stderr dump: the first
+// webrender frame, or for a stack overflow (where the top frame is whichever function
+// of the recursion cycle happened to run out of stack) the lexicographically smallest
+// frame among the first 40, which is stable for a given cycle.
 func fatalFrame(stderr string) string {
-	lines := strings.Split(stderr, "\n")
+	if strings.Contains(stderr, "stack overflow") || strings.Contains(stderr, "goroutine stack exceeds") {
+		best := ""
+		rest := stderr
+		for i := 0; i < 40; i++ {
+			f, tail := nextFrame(rest)
+			if f == "" {
+				break
+			}
+			if best == "" || f < best {
+				best = f
+			}
+			rest = tail
+		}
+		return best
+	}
+	f, _ := nextFrame(stderr)
+	return f
+}
+
+// nextFrame returns the first webrender frame of s and the text after it.
+func nextFrame(s string) (string, string) {
+	lines := strings.Split(s, "\n")
 	for i := 0; i+1 < len(lines); i++ {
 		l := strings.TrimSpace(lines[i])
 		if !strings.HasPrefix(l, "github.com/benoitkugler/webrender/") || strings.Contains(l, "/verifsim/") {
@@ -129,9 +153,9 @@ func fatalFrame(stderr string) string {
 		if j := strings.Index(fn, "."); j >= 0 {
 			fn = fn[j+1:]
 		}
-		return file + "#" + fn
+		return file + "#" + fn, strings.Join(lines[i+2:], "\n")
 	}
-	return ""
+	return "", ""
 }
 
 // runOn executes one spec on w; ok=false means the worker must be replaced.
